@@ -1,5 +1,5 @@
 """Property -> rules map."""
-from . import rules_case, lea_glue, rules_struct, rules_bulk
+from . import rules_case, lea_glue, rules_struct, rules_bulk, rules_cfg, rules_py
 
 PROPS = {}
 
@@ -97,6 +97,7 @@ def c02(cx):
     rules_struct.r_restore(cx, fx)
     rules_struct.r_eof(cx, fx)
     rules_struct.r_bom_order(cx, fx)
+    rules_cfg.r_cfgdiff_macrosep(cx)
 
 
 @prop("C12", "R-PAIR-COUNTERS (macro nesting level and pending-statement frames are opened only by %macro/%do and "
@@ -130,6 +131,48 @@ def c05(cx):
              "R-NONEMPTY. Decides the statement-context flag and token-shape clauses, not equivalence with a reference lexer.")
 def c11(cx):
     lea_glue.apply(cx, ["R-PENDING", "R-DELIM-SHAPE", "R-NONEMPTY"])
+
+
+@prop("C15", "R-STATE-INVENTORY (no state outside the lexer object), R-NO-ABSOLUTE (no control flow on history lengths), "
+             "R-LOOKBEHIND (statement-start look-behind treats 'no previous token' like ';'), R-CKPT (no checkpoint "
+             "survives a closed boundary), R-PAIR-COUNTERS. Decides that no channel other than the declared "
+             "configuration carries information across a closed boundary; not equality of results for all (A, B).")
+def c15(cx):
+    rules_cfg.r_state_inventory(cx)
+    rules_cfg.r_no_absolute(cx)
+    rules_cfg.r_lookbehind(cx)
+    rules_struct.r_pair_counters(cx, cx.facts("dev-none-stable"))
+    lea_glue.apply(cx, ["R-CKPT"])
+
+
+@prop("C18", "R-CFGDIFF-MACROSEP: structural diff of the feature-off and feature-on HIR: feature-only code may only read "
+             "and emit/insert MacroSep; R-MACROSEP-GUARD: every MacroSep emission is guarded by needs_macro_sep, goes "
+             "to DEFAULT without payload, the predicate keeps its exclusions/targets; R-OFFSET-PROVENANCE for the "
+             "inserted token.")
+def c18(cx):
+    rules_cfg.r_cfgdiff_macrosep(cx)
+    rules_cfg.r_lookbehind(cx)
+
+
+@prop("C19", "R-STATE-INVENTORY (no global/interior-mutable state, no env/time/thread/rand calls), R-CFGDIFF-DEBUG "
+             "(debug-only code only observes), R-CFGDIFF-NIGHTLY + R-FALLIBLE-APPEND (nightly and stable halves of "
+             "add_token append exactly once), R-UNSAFE-GUARD, R-CURSOR-COUNT in both profiles, and R-PANIC (a reachable "
+             "debug assertion makes debug and release differ).")
+def c19(cx):
+    rules_cfg.r_state_inventory(cx)
+    rules_cfg.r_cfgdiff_debug(cx)
+    rules_cfg.r_cfgdiff_nightly(cx)
+    rules_struct.r_unsafe_guard(cx, cx.facts("dev-none-stable"))
+    rules_struct.r_cursor_count(cx, ["dev-none-stable", "rel-none-stable"])
+    lea_glue.apply(cx, ["R-PANIC"])
+
+
+@prop("C20", "R-WIRE (rmp_serde::to_vec tuple order, Serialize field order of the linked crate's ResolvedTokenInfo / "
+             "ErrorInfo vs the array_like msgspec Structs, Payload untagged), R-ENUMS (Python IntEnums equal the "
+             "linked crate's discriminants; build.rs regenerates the committed modules byte-identically), R-PY-SOURCE "
+             "(the lexed text is the caller's string, extracted losslessly). Decides the schema half only.")
+def c20(cx):
+    rules_py.run(cx)
 
 
 def run(cx):
